@@ -25,54 +25,93 @@
 (* orders can be model-checked and shown to fail.                             *)
 EXTENDS Store
 
-CONSTANT CommitOrder      \* "pif" = primary, index, freelist (the code); "pfi" = freelist before index (seeded change C03-a)
+CONSTANTS CommitOrder,    \* "pif" = primary, index, freelist (the code); "pfi" = freelist before index (seeded change C03-a)
+          Faults          \* subset of {"reopen", "crash"}: which of the two are among the calls
 
 VARIABLES dur,            \* contents at the last completed commit / close / recovery
-          since           \* key -> set of values acknowledged since then (-1 = removed)
-cvars == <<vars, dur, since>>
-CView == <<View, dur, since>>
+          since,          \* key -> set of values acknowledged since then (-1 = removed)
+          ok              \* verdicts on the last step: [crash] what a recovery found is allowed; [paths] both recovery paths agree
+cvars == <<vars, dur, since, ok>>
+CView == <<View, dur, since, ok>>
+AllOK == [crash |-> TRUE, paths |-> TRUE]
 
-CInit == Init /\ dur = [k \in Keys |-> -1] /\ since = [k \in Keys |-> {}]
+CInit == Init /\ dur = [k \in Keys |-> -1] /\ since = [k \in Keys |-> {}] /\ ok = AllOK
 
-CPut(k, v) == Put(k, v) /\ since' = [since EXCEPT ![k] = @ \cup {v}] /\ UNCHANGED dur
-CRemove(k) == Remove(k) /\ since' = [since EXCEPT ![k] = @ \cup {-1}] /\ UNCHANGED dur
-CFlush == Flush /\ dur' = kv' /\ since' = [k \in Keys |-> {}]
+CPut(k, v) == Put(k, v) /\ since' = [since EXCEPT ![k] = @ \cup {v}] /\ UNCHANGED dur /\ ok' = AllOK
+CRemove(k) == Remove(k) /\ since' = [since EXCEPT ![k] = @ \cup {-1}] /\ UNCHANGED dur /\ ok' = AllOK
+CFlush == Flush /\ dur' = kv /\ since' = [k \in Keys |-> {}] /\ ok' = AllOK
 \* a collector's cycle commits nothing on its own account (relocated copies stay in the pools)
-CPriGC(lu) == PriGC(lu) /\ UNCHANGED <<dur, since>>
-CIdxGC(sf) == IdxGC(sf) /\ UNCHANGED <<dur, since>>
+CPriGC(lu) == PriGC(lu) /\ UNCHANGED <<dur, since>> /\ ok' = AllOK
+CIdxGC(sf) == IdxGC(sf) /\ UNCHANGED <<dur, since>> /\ ok' = AllOK
 
-\* what an open finds and sets up, given the files
-Reopened(tableFromRescan) ==
+\* ---- what an open computes from the files alone (pure functions of the files: no pools, no live table)
+\* the rescan: every file from the first one, records in order, deleted ones skipped, a later record of a bucket wins
+RECURSIVE ScanFilesOf(_, _, _, _)
+ScanFilesOf(files, first, i, t) ==
+  IF i > Len(files) THEN t ELSE ScanFilesOf(files, first, i + 1, ScanRecs(files[i], 1, 0, first + i - 1, t))
+RescanOf(files, first) == ScanFilesOf(files, first, 1, [b \in Buckets |-> 0])
+\* a lookup with empty pools: bucket table -> record list on disk -> primary record -> full-key comparison
+ListOf(tbl, files, first, b) ==
+  IF tbl[b] = 0 THEN <<>>
+  ELSE LET fnum  == (tbl[b] - 4) \div IdxLimit
+           local == tbl[b] - fnum * IdxLimit - 4
+           recs  == files[fnum - first + 1]
+           offs  == IOffsets(recs, 1, 0)
+           j     == CHOOSE j \in 1..Len(recs) : offs[j] = local
+       IN recs[j].ents
+RecAt(pfs, pfst, off) ==
+  LET fi == off \div PriLimit - pfst + 1   local == off % PriLimit IN
+  IF fi < 1 \/ fi > Len(pfs) THEN [found |-> FALSE, k |-> <<>>, v |-> 0, del |-> FALSE]
+  ELSE LET recs == pfs[fi]   offs == POffsets(recs, 1, 0) IN
+       IF \E j \in 1..Len(recs) : offs[j] = local
+       THEN LET j == CHOOSE j \in 1..Len(recs) : offs[j] = local IN [found |-> TRUE, k |-> recs[j].k, v |-> recs[j].v, del |-> recs[j].del]
+       ELSE [found |-> FALSE, k |-> <<>>, v |-> 0, del |-> FALSE]
+ValueOf(tbl, ifs, ifst, pfs, pfst, k) ==
+  LET l == ListOf(tbl, ifs, ifst, Bucket(k))
+      m == Match(l, Strip(k))
+  IN IF m = 0 THEN -1
+     ELSE LET r == RecAt(pfs, pfst, l[m].loc.off) IN IF r.found /\ ~r.del /\ r.k = k THEN r.v ELSE -1
+ContentsOf(tbl, ifs, ifst, pfs, pfst) == [k \in Keys |-> ValueOf(tbl, ifs, ifst, pfs, pfst, k)]
+
+\* what an open sets up besides the table
+Reopened(pfs, pl) ==
   /\ pnext' = <<>> /\ inext' = [b \in Buckets |-> NoList] /\ flpool' = <<>>
-  /\ recFile' = pfirst' + Len(pfiles') - 1 /\ recPos' = plen'
+  /\ recFile' = pfirst + Len(pfs) - 1 /\ recPos' = pl
   /\ visited' = {}
-  /\ bk' = tableFromRescan
 
 \* Close (commit of everything, freelist included, snapshot of the table) and reopen through the snapshot or - the
 \* snapshot deleted or unreadable - through the rescan
-Reopen(how) ==
+ReopenWith(how, order) ==
   /\ Call([op |-> "reopen", how |-> how])
-  /\ \E order \in Perms(Dirty) :
-       LET pa == PriAppendAll(pfiles, plen, pnext)
-           ia == IdxAppendAll(ifiles, ilen, order, inext, bk)
-       IN /\ pfiles' = pa.files /\ plen' = pa.len
-          /\ ifiles' = ia.files /\ ilen' = ia.len
-          /\ flfile' = flfile \o flpool
-          /\ UNCHANGED <<kv, ifirst, pfirst, flgc>>
-          /\ Reopened(IF how = "snapshot" THEN ia.bk ELSE RescanTable')
-  /\ dur' = kv' /\ since' = [k \in Keys |-> {}]
+  /\ LET pa   == PriAppendAll(pfiles, plen, pnext)
+         ia   == IdxAppendAll(ifiles, ilen, order, inext, bk)
+         scan == RescanOf(ia.files, ifirst)
+     IN /\ pfiles' = pa.files /\ plen' = pa.len
+        /\ ifiles' = ia.files /\ ilen' = ia.len
+        /\ flfile' = flfile \o flpool
+        /\ UNCHANGED <<kv, ifirst, pfirst, flgc>>
+        /\ Reopened(pa.files, pa.len)
+        /\ bk' = IF how = "snapshot" THEN ia.bk ELSE scan
+        /\ ok' = [crash |-> TRUE, paths |-> ia.bk = scan]
+  /\ dur' = kv /\ since' = [k \in Keys |-> {}]
+Reopen(how) == \E order \in Perms(Dirty) : ReopenWith(how, order)
 
 Crash(np, order, ni, fl) ==
   /\ Call([op |-> "crash", np |-> np, ni |-> ni, fl |-> fl])
-  /\ LET pa == PriAppendAll(pfiles, plen, SubSeq(pnext, 1, np))
-         ia == IdxAppendAll(ifiles, ilen, SubSeq(order, 1, ni), inext, bk)
+  /\ LET pa   == PriAppendAll(pfiles, plen, SubSeq(pnext, 1, np))
+         ia   == IdxAppendAll(ifiles, ilen, SubSeq(order, 1, ni), inext, bk)
+         scan == RescanOf(ia.files, ifirst)
+         cont == ContentsOf(scan, ia.files, ifirst, pa.files, pfirst)
      IN /\ pfiles' = pa.files /\ plen' = pa.len
         /\ ifiles' = ia.files /\ ilen' = ia.len
         /\ flfile' = IF fl THEN flfile \o flpool ELSE flfile
         /\ UNCHANGED <<ifirst, pfirst, flgc>>
-        /\ Reopened(RescanTable')
-  /\ kv' = Contents'                       \* the recovered contents are what the store now holds ...
-  /\ dur' = kv' /\ since' = [k \in Keys |-> {}]
+        /\ Reopened(pa.files, pa.len)
+        /\ bk' = scan
+        /\ kv' = cont                       \* the recovered contents are what the store now holds ...
+        \* ... and they must be explainable: per key the committed value or one acknowledged since (C03)
+        /\ ok' = [crash |-> \A k \in Keys : cont[k] \in {dur[k]} \cup since[k], paths |-> TRUE]
+        /\ dur' = cont /\ since' = [k \in Keys |-> {}]
 
 Stages(order) ==      \* the crash points of one commit in the configured order
   LET P == Len(pnext)   I == Len(order) IN
@@ -84,19 +123,17 @@ CrashAny == \E order \in Perms(Dirty) : \E st \in Stages(order) : Crash(st[1], o
 
 CNext == \/ (\E k \in Keys, v \in Vals : CPut(k, v)) \/ (\E k \in Keys : CRemove(k)) \/ CFlush
          \/ (WithGC /\ ((\E lu \in LowUses : CPriGC(lu)) \/ \E sf \in BOOLEAN : CIdxGC(sf)))
-         \/ (\E how \in {"snapshot", "rescan"} : Reopen(how))
-         \/ CrashAny
+         \/ ("reopen" \in Faults /\ \E how \in {"snapshot", "rescan"} : Reopen(how))
+         \/ ("crash" \in Faults /\ CrashAny)
 CSpec == CInit /\ [][CNext]_cvars
 
-\* ... and they must be explainable: per key the committed value or one acknowledged since (C03)
-Durable == \A k \in Keys : kv[k] \in {dur[k]} \cup since[k]
-\* the last call was a crash => what was recovered is allowed (the action form of the same statement)
-CrashRecoversAllowed ==
-  [][hist'[Len(hist')].op = "crash" => \A k \in Keys : Contents'[k] \in {dur[k]} \cup since[k]]_cvars
+Durable == ok.crash                        \* C03 for this mechanism
+ReopenPathsAgree == ok.paths               \* C02 for this mechanism
+\* the pure functions above are the module's own lookup and rescan
+PureAgrees == /\ RescanOf(ifiles, ifirst) = RescanTable
+              /\ (pnext = <<>> /\ Dirty = {}) => ContentsOf(bk, ifiles, ifirst, pfiles, pfirst) = Contents
 \* no freed location is live (C07 F4; the safety half of C13 that survives a crash)
 Range(s) == {s[i] : i \in DOMAIN s}
 Named == UNION {{EffList(b).l[i].loc : i \in 1..Len(EffList(b).l)} : b \in Buckets}
 NoLiveFreed == \A e \in Range(flfile) \cup Range(flpool) \cup Range(flgc.l) : e \notin Named
-\* both recovery paths agree (C02)
-ReopenPathsAgree == [][hist'[Len(hist')].op = "reopen" => bk' = RescanTable']_cvars
 =======================================================================
